@@ -29,13 +29,13 @@ SPECS = [
  ("src/commit.rs", "// Stamp the commit_batch & batch.", 1, "b", '"commit.oracle_published", seq_num, count'),
  ("src/commit.rs", "self.pending.enqueue(Arc::clone(&commit_batch));", 1, "a", '"commit.enqueued", seq_num, count'),
  ("src/commit.rs", "// WAL failed AFTER oracle.publish. Roll back the entries", 1, "b", '"commit.wal_failed", seq_num, count'),
- ("src/commit.rs", "commit_batch.complete(Err(e.clone()));", 1, "a", '"commit.fail_completed", seq_num, 0'),
+ ("src/commit.rs", "commit_batch.set_failure(e); || commit_batch.complete(Err(e.clone()));", 1, "a", '"commit.fail_completed", seq_num, 0'),
  ("src/commit.rs", "commit_batch.mark_applied();", 1, "a", '"commit.marked", seq_num, 1'),
  ("src/commit.rs", "drop(_guard);", 1, "a", '"commit.unlocked", seq_num, 1'),
  ("src/commit.rs", "self.publish();", 1, "a", '"commit.published", seq_num, 1'),
  ("src/commit.rs", "// === END CRITICAL SECTION ===", 1, "a", '"commit.unlocked", allocated_seq, 0'),
  ("src/commit.rs", "let apply_result = self.env.apply(&processed_batch);", 1, "a", '"commit.after_apply", allocated_seq, apply_result.is_err() as u64'),
- ("src/commit.rs", "commit_batch.complete(Err(err.clone()));", 1, "a", '"commit.fail_completed", allocated_seq, 1'),
+ ("src/commit.rs", "commit_batch.set_failure(Error::CommitFail(e.to_string())); || commit_batch.complete(Err(err.clone()));", 1, "a", '"commit.fail_completed", allocated_seq, 1'),
  ("src/commit.rs", "commit_batch.mark_applied();", 2, "a", '"commit.marked", allocated_seq, 0'),
  ("src/commit.rs", "self.publish();", 2, "a", '"commit.published", allocated_seq, 0'),
  # ---- publish()
@@ -44,7 +44,7 @@ SPECS = [
  ("src/commit.rs", "// Already published by another thread", 1, "b", '"vis.skip", new_visible, current'),
  ("src/commit.rs", "break;", 2, "b", '"vis.cas_ok", new_visible, current'),
  ("src/commit.rs", "// Complete this batch", 1, "b", None),   # placeholder: see below (vis.cas_fail handled by line rule)
- ("src/commit.rs", "batch.complete(Ok(()));", 1, "a", '"pub.completed", new_visible, 0'),
+ ("src/commit.rs", "None => Ok(()), @+1 || batch.complete(Ok(()));", 1, "a", '"pub.completed", new_visible, 0'),
  ("src/commit.rs", "// No more applied batches, done", 1, "b", '"pub.exit", 0, 0'),
  # ---- stall.rs
  ("src/stall.rs", "let notified = self.stall_cleared.notified();", 1, "a", '"stall.registered", 0, 0'),
@@ -75,6 +75,7 @@ SPECS = [
  ("src/task.rs", 'log::error!("Memtable compaction task error: {e:?}");', 1, "b", '"task.mem.error", 0, 0'),
  ("src/task.rs", "level_notify.notify_one();", 1, "a", '"task.mem.notified_level", 0, 0'),
  ("src/task.rs", "running.store(false, Ordering::SeqCst);", 1, "a", '"task.mem.idle", 0, 0'),
+ ("src/task.rs", "notify.notify_one();", 1, "a", '"task.mem.recheck", 0, 1'),
  ("src/task.rs", "task_handles.lock().unwrap().as_mut().unwrap().push(handle);", 1, "X", None),
  ("src/task.rs", "notify.notified().await;", 2, "b", '"task.level.wait", 0, 0'),
  ("src/task.rs", "notify.notified().await;", 2, "a", '"task.level.woken", 0, 0'),
@@ -103,7 +104,16 @@ def apply(path, specs):
         anchor, occ, pos, args = sp[1], sp[2], sp[3], sp[4]
         if args is None:
             continue
-        idxs = [i for i, l in enumerate(lines[:end]) if l.strip() == anchor]
+        alts = [x.strip() for x in anchor.split(" || ")]  # repaired shape first, older shape second
+        idxs = []
+        for alt in alts:
+            off = 0
+            if " @+" in alt:  # the statement ends `off` lines below the anchor line
+                alt, o = alt.split(" @+")
+                off = int(o)
+            idxs = [i + off for i, l in enumerate(lines[:end]) if l.strip() == alt.strip()]
+            if idxs:
+                break
         if len(idxs) < occ:
             sys.exit("anchor lost: %s #%d in %s" % (anchor, occ, path))
         i = idxs[occ - 1]
@@ -113,6 +123,10 @@ def apply(path, specs):
         if pos == "a" and lines[i].rstrip().endswith("{") and len(sp) <= 5:
             ind += "\t"
         text = ind + Y.format(ind=ind, args=args)
+        call = "crate::verif::yieldp::yield_point(%s);" % args
+        near = lines[i + 1:i + 3] if pos == "a" else lines[max(0, i - 2):i]
+        if any(l.strip() == call for l in near):
+            continue  # already there (the script is idempotent)
         ins.append((i + 1 if pos == "a" else i, text))
     return lines, ins, end
 by_file = {}
@@ -130,16 +144,23 @@ for f, specs in by_file.items():
         # the `{ break; }` block that follows `.is_ok()` inside fn publish
         k = next(i for i, l in enumerate(lines) if l.strip() == "fn publish(&self) {")
         j = next(i for i in range(k, end) if lines[i].strip() == ".is_ok()")
-        assert lines[j+1].strip() == "{" and lines[j+2].strip() == "break;" and lines[j+3].strip() == "}"
-        ind = re.match(r"\t*", lines[j+3]).group(0)
-        ins.append((j + 4, ind + Y.format(ind=ind, args='"vis.cas_fail", new_visible, current')))
+        assert lines[j+1].strip() == "{"
+        ind = re.match(r"\t*", lines[j+1]).group(0)
+        c = next(i for i in range(j + 2, end) if lines[i] == ind + "}")
+        assert any(lines[i].strip() == "break;" for i in range(j + 2, c))
+        if "vis.cas_fail" not in "".join(lines[c + 1:c + 3]):
+            ins.append((c + 1, ind + Y.format(ind=ind, args='"vis.cas_fail", new_visible, current')))
     if f == "src/task.rs":
         # closing `}` of the outer `loop {` of each spawned task = the line before `});` that precedes the push(handle)
         pushes = [i for i, l in enumerate(lines[:end]) if l.strip() == "task_handles.lock().unwrap().as_mut().unwrap().push(handle);"]
         for n, i in enumerate(pushes):
-            assert lines[i-1].strip() == "});" and lines[i-2].strip() == "}"
+            assert lines[i-1].strip() == "});"
+            if ".exit" in lines[i-2]:
+                continue  # already there
+            assert lines[i-2].strip() == "}"
             ind = re.match(r"\t*", lines[i-2]).group(0)
-            ins.append((i - 1, ind + Y.format(ind=ind, args='"task.%s.exit", 0, 0' % ("mem" if n == 0 else "level"))))
+            if True:
+                ins.append((i - 1, ind + Y.format(ind=ind, args='"task.%s.exit", 0, 0' % ("mem" if n == 0 else "level"))))
     for i, text in sorted(ins, key=lambda x: -x[0]):
         lines[i:i] = text.split("\n")
     open(path, "w").write("\n".join(lines))
